@@ -3,7 +3,7 @@
    number of accumulated terms, every operand code and every input in the stated range are
    inside the forall. *)
 From Coq Require Import ZArith QArith Qminmax List Bool.
-From QV Require Import Base.ZQ Base.FL Quant.Fixed QTools.Types QTools.Ops QTools.LayerMap.
+From QV Require Import Base.ZQ Base.FL Quant.Fixed QTools.Types QTools.Ops QTools.LayerMap Quant.Po2 QTools.Po2Bridge.
 From QVGen Require Import QToolsOps.
 From QV Require Import Link.QToolsLink.
 Import ListNotations.
@@ -132,3 +132,29 @@ Proof. cbn zeta. vm_compute. split; discriminate. Qed.
 Theorem C18_source_get_exp : forall t, gen_get_exp t = get_exp t.
 Proof. exact link_get_exp. Qed.
 Print Assumptions C18_source_get_exp.
+
+(* ---- bridge C03 -> C18: every value the power-of-two quantizer models can emit is a member of the qtools type reported
+   for the quantizer (PowerOfTwo.convert_qkeras_quantizer + get_exp), for all bit widths, max_value, rounding modes, inputs ---- *)
+Theorem C18_po2_value_fits_reported_type : forall c x, 2 <= p_bits c -> 0 < rden x ->
+  match p_mv c with
+  | Some v => 0 < rnum v /\ 0 < rden v /\ po2_min_exp (p_bits c) (p_mv c) <= clog2_rat v
+  | None => True
+  end ->
+  mem_type (qt_of_po2 true (p_bits c) (p_mv c)) (po2_val (po2_q c x)) = true.
+Proof. exact po2_value_fits_reported_type. Qed.
+Print Assumptions C18_po2_value_fits_reported_type.
+Theorem C18_relu_po2_value_fits_reported_type : forall c x, r_slope c = None -> 1 <= r_bits c -> 0 < rden x ->
+  match r_mv c with
+  | Some v => 0 < rnum v /\ 0 < rden v /\ rpo2_min_exp (r_bits c) (r_mv c) <= clog2_rat v
+  | None => True
+  end ->
+  mem_type (qt_of_po2 false (r_bits c) (r_mv c)) (po2_val (rpo2_q c x)) = true.
+Proof. exact relu_po2_value_fits_reported_type. Qed.
+Print Assumptions C18_relu_po2_value_fits_reported_type.
+(* the same statement was false of the code before fix: dcbc898 (max_value <= 1: no exponent sign bit) *)
+Theorem C18_po2_no_sign_bit_before_repair_refuted :
+  exists c x, p_bits c = 4 /\ p_mv c = Some (1, 1) /\
+    snd (po2_q c x) < - fst (get_exp_before_repair (qt_of_po2 true (p_bits c) (p_mv c))) /\
+    - fst (get_exp (qt_of_po2 true (p_bits c) (p_mv c))) <= snd (po2_q c x).
+Proof. exact po2_no_sign_bit_before_repair_refuted. Qed.
+Print Assumptions C18_po2_no_sign_bit_before_repair_refuted.
